@@ -244,6 +244,25 @@ pub fn run(rep: &mut Report, thorough: bool) {
                 _ => flow6(1, 1).ip_frame(P_ICMP6, &icmp6(&cli6(), &srv6(), 136, d[1] as u8, &body)),
             }
         });
+        // neighbour advertisements in every flag combination (Router / Solicited / Override and the
+        // reserved bits), for handled and foreign targets, with and without a target link-layer
+        // option, unicast and to all-nodes; redirect (137) and router advertisement (134) too
+        {
+            let targets = [srv6(), srv6b(), Ip::parse("2001:db8::77")];
+            let dims = [256u64, 3, 2, 2, 3];
+            strict_sweep(rep, &format!("nd-advertisements-{}", tag), "ICMPv6 type {136, 134, 137} x flags byte 0..255 x target {2 handled, foreign} x {no option, target link-layer address} x destination {unicast, all-nodes}", product(&dims), "icmp", &|i| {
+                let d = unrank(i, &dims);
+                let mut body = vec![d[0] as u8, 0, 0, 0];
+                body.extend_from_slice(&targets[d[1] as usize].bytes());
+                if d[2] == 1 {
+                    body.extend_from_slice(&[2, 1]);
+                    body.extend_from_slice(&MAC_CLI);
+                }
+                let (dip, dmac): (Ip, Mac) = if d[3] == 0 { (srv6(), MAC_SRV) } else { (Ip::parse("ff02::1"), [0x33, 0x33, 0, 0, 0, 1]) };
+                let ty = [136u8, 134, 137][d[4] as usize];
+                eth(&dmac, &MAC_CLI, ET_IP6, &ip(&cli6(), &dip, P_ICMP6, &icmp6(&cli6(), &dip, ty, 0, &body)))
+            });
+        }
         let ck4 = cookies.get(&key_of(&flow4(40000, 80))).copied().unwrap_or(0).wrapping_add(1);
         let ck6 = cookies.get(&key_of(&flow6(40000, 80))).copied().unwrap_or(0).wrapping_add(1);
         strict_sweep(rep, &format!("tcp-rst-synack-valid-ack-{}", tag), "flag values containing RST without PSH, SYN|ACK and SYN|ACK|URG etc. (no PSH) x payload {none, 1 byte, request} x {v4,v6}, acknowledging the flow's valid cookie", 512 * 3 * 2, "tcp", &|i| {
